@@ -30,7 +30,7 @@ SHARD_TIMEOUT = {"quick": 600, "thorough": 3000}
 
 
 def plan(tier, seed):
-    n = 300 if tier == "quick" else 5000
+    n = 800 if tier == "quick" else 6000
     parts = 4 if tier == "quick" else 8
     return [{"driver": d, "part": p, "n": n // parts} for d in simlib.DRIVERS for p in range(parts)]
 
